@@ -83,10 +83,11 @@ def guarded (cfg : Cfg) : Path → List Path
   | .collected c => if c ∈ cfg.chrs then [.save c, .groups c, .bamstat c] else []
   | .lock => .info :: cfg.chrs.flatMap (fun c => [Path.multimap c, Path.save c])
   | .processed c => if c ∈ cfg.chrs then chrOutputs cfg c else []
+  | .refFai => if idxTrusted cfg then [.refFaiData] else []     -- an index that exists is read as it is
   | _ => []
 
 def isLock : Path → Bool
-  | .rgLock | .collected _ | .lock | .processed _ => true
+  | .rgLock | .collected _ | .lock | .processed _ | .refFai => true
   | _ => false
 
 theorem mem_trStatPaths {cfg : Cfg} {c : Chr} {d : Path} (h : d ∈ trStatPaths cfg c) : d = .trStat c := by
@@ -121,6 +122,9 @@ theorem guarded_not_lock {cfg : Cfg} {l d : Path} (h : d ∈ guarded cfg l) : is
     rcases h with rfl | ⟨c, _, rfl | rfl⟩ <;> rfl
   · split at h
     · rcases mem_chrOutputs h with ⟨s, rfl⟩ | ⟨s, rfl⟩ | ⟨s, rfl⟩ | rfl | rfl <;> rfl
+    · simp at h
+  · split at h
+    · simp only [List.mem_cons, List.not_mem_nil, or_false] at h; subst h; rfl
     · simp at h
 
 theorem guarded_nil_of_not_lock {cfg : Cfg} {p : Path} (h : isLock p = false) : guarded cfg p = [] := by
@@ -199,6 +203,10 @@ theorem J_create_lock {cfg : Cfg} {fs : FS} {l : Path} (h : J cfg fs) (hlock : i
     have := guarded_not_lock hm
     simp [hlock] at this
   · intro _ d hd; exact hg d hd
+
+theorem refOK_frame {cfg : Cfg} {fs fs' : FS} (h1 : fs' .refFa = fs .refFa) (h2 : fs' .refFaiData = fs .refFaiData) :
+    refOK cfg fs' = refOK cfg fs := by
+  simp only [refOK, FS.good, h1, h2]
 
 /-! ### actions that do not raise -/
 
